@@ -41,6 +41,7 @@ Definition d_api (s : sexp) : option api :=
   | L [A 18; A i; b] => let? b' := dbool b in Some (ApiStopAnnounce i b')
   | L [A 19; e; d] => let? e' := d_entry e in let? d' := d_dest d in Some (ApiQueueSend e' d')
   | L [A 20; es; d] => let? es' := dlist d_entry es in let? d' := d_dest d in Some (ApiSendSd es' d')
+  | L [A 21; A i; egs] => let? egs' := dlist dN egs in Some (ApiSetReject i egs')
   | _ => None
   end.
 
